@@ -46,7 +46,7 @@ def group(violations):
 def write_replay(prop, v):
     d = os.path.join(ROOT, "replays", prop)
     os.makedirs(d, exist_ok=True)
-    body = json.dumps(v, indent=1, sort_keys=True, ensure_ascii=False)
+    body = json.dumps(v, indent=1, sort_keys=True, ensure_ascii=True)  # lone surrogates in witnesses must survive the file
     h = hashlib.sha1(sig_key(v["signature"]).encode("utf-8")).hexdigest()[:16]
     path = os.path.join(d, h + ".json")
     with open(path, "w") as fp:
